@@ -260,12 +260,12 @@ func redactCommand(cmd *orderedmap.OrderedMap[string, any], shouldEagerRedact bo
 }
 
 var (
-	planSummaryIndexRe = regexp.MustCompile(`IXSCAN\s*\{[^}]+\}`)
+	planSummaryIndexRe = regexp.MustCompile(`[A-Z][A-Z0-9_]*\s*\{[^}]+\}`)
 	planSummaryKeyRe   = regexp.MustCompile(`[^\s,:{}]+\s*:`)
 )
 
 // redactFieldNamesFromPlanSummary pseudonymises the index key names of every
-// IXSCAN { ... } block. Each key token is rewritten exactly once, in place, so a
+// STAGE { ... } block (IXSCAN, COUNT_SCAN, DISTINCT_SCAN, EXPRESS_IXSCAN, ...). Each key token is rewritten exactly once, in place, so a
 // pseudonym (or the word IXSCAN) can never be rewritten again by a later key.
 func redactFieldNamesFromPlanSummary(planSummary string) string {
 	return planSummaryIndexRe.ReplaceAllStringFunc(planSummary, func(block string) string {
